@@ -6,6 +6,7 @@ package absnfs
 // the real build.
 
 import (
+	"context"
 	"encoding/json"
 	"fmt"
 	"math"
@@ -257,3 +258,45 @@ func vpCIDRToken(name string, ip, netIP, mask []byte, text string) string { retu
 func vpStubIP(text string, ip16 []byte) {}
 
 func vpU16raw(name string) uint16 { return uint16(vpDraw(name)) }
+
+// ---- request timeouts as symbolic inputs. The code under test makes its per-request contexts with
+// context.WithTimeout; the engine (and, textually, the native replay build) sends those calls to
+// vpWithTimeout. With vpTimeoutsOn false (every harness but the ones about timeouts) the context
+// never expires, as before. With it true, every look at the context (Done, Err) may find that the
+// deadline has just passed - a forking symbolic choice, recorded on the tape, so the native replay
+// expires the same context at the same look. Once expired a context stays expired.
+var vpTimeoutsOn bool
+
+type vpCtx struct {
+	context.Context
+	done    chan struct{}
+	expired bool
+}
+
+func (c *vpCtx) maybeExpire() {
+	if !c.expired && vpBool("deadline-passes") {
+		c.expired = true
+		close(c.done)
+	}
+}
+func (c *vpCtx) Done() <-chan struct{} { c.maybeExpire(); return c.done }
+func (c *vpCtx) Err() error {
+	c.maybeExpire()
+	if c.expired {
+		return context.DeadlineExceeded
+	}
+	return nil
+}
+func (c *vpCtx) Deadline() (time.Time, bool) { return time.Time{}, false }
+
+func vpWithTimeout(parent context.Context, d time.Duration) (context.Context, context.CancelFunc) {
+	if !vpTimeoutsOn {
+		return vpPlainTimeout(parent, d)
+	}
+	return &vpCtx{Context: parent, done: make(chan struct{})}, func() {}
+}
+
+// vpPlainTimeout: natively the real thing; in the engine the parent itself (never expires).
+func vpPlainTimeout(parent context.Context, d time.Duration) (context.Context, context.CancelFunc) {
+	return context.WithTimeout(parent, d)
+}
